@@ -68,6 +68,8 @@ class Contract:
     hints: list = field(default_factory=list)   # proved-then-assumed lemmas at function entry (ghost)
     ranks: dict = field(default_factory=dict)   # tensor expression -> rank: its shape list is canonical on entry
     definitions: list = field(default_factory=list)  # definitional axioms of ghost functions (assumed; recorded)
+    class_map: dict = field(default_factory=dict)    # static class instantiation, e.g. KFACBaseLayer -> KFACEigenLayer
+    theories: tuple = ()                             # opt-in background facts (e.g. 'strided_ranges')
 
 
 REGISTRY: dict[str, Contract] = {}
@@ -93,7 +95,7 @@ def _clauses(items, props=()):
 def contract(key, *, props=(), params=None, closure=None, result=None, requires=(), ensures=(),
              raises=(), may_raise=(), modifies=(), loops=None, mode='contract', self_cls=None,
              lets=None, trusted=False, note='', float_mode='R', covers=(), locals=None, exsures=(),
-             unknown_may_raise=False, hints=(), ranks=None, definitions=()):
+             unknown_may_raise=False, hints=(), ranks=None, definitions=(), class_map=None, theories=()):
     props = tuple(props)
     lp = {}
     for k, v in (loops or {}).items():
@@ -114,7 +116,7 @@ def contract(key, *, props=(), params=None, closure=None, result=None, requires=
         float_mode=float_mode, covers=_clauses(covers, props), locals=dict(locals or {}),
         exsures=[(e, Clause(f'exsures:{e}:{l}', t, props)) for e, l, t in exsures],
         unknown_may_raise=unknown_may_raise, hints=_clauses(hints, props), ranks=dict(ranks or {}),
-        definitions=_clauses(definitions, props),
+        definitions=_clauses(definitions, props), class_map=dict(class_map or {}), theories=tuple(theories),
     )
     REGISTRY[key] = c
     return c
